@@ -15,6 +15,18 @@ from .report import Ctx, finish
 CLAIMED = [f"C{i:02d}" for i in range(1, 19) if i != 2]  # C02 is not applicable (DESIGN.md)
 
 
+def _named_in_rules(repo) -> set[str]:
+    """Functions whose name is spelled in the rule sources: they are anchors of some rule and stay functions in the inlined view."""
+    import re
+    from pathlib import Path
+
+    words: set[str] = set()
+    here = Path(__file__).parent
+    for f in list((here / "rules").glob("*.py")) + list((here / "props").glob("*.py")):
+        words |= set(re.findall(r"[A-Za-z_][A-Za-z0-9_]*", f.read_text()))
+    return {q for q, fi in repo.functions.items() if fi.name in words}
+
+
 def _second_opinion(prop: str, tier: str, mod, ctx: Ctx) -> None:
     """Re-evaluate failing obligations on the inlined view of the repository (private helpers spliced into their
     callers). Both programs are equivalent, so an obligation that holds there holds; "extract helper" refactorings are
@@ -29,7 +41,7 @@ def _second_opinion(prop: str, tier: str, mod, ctx: Ctx) -> None:
     if (not failing and not ctx.analysis_errors) or os.environ.get("VERIF_NO_INLINE"):
         return
     try:
-        repo_b, stats = build_inlined_repo()
+        repo_b, stats = build_inlined_repo(keep=set(getattr(ctx.repo, "requested", set())) | _named_in_rules(ctx.repo))
         ctx_b = Ctx(prop, "quick", repo_b, Program(repo_b))
         mod.run(ctx_b)
     except Exception as e:  # noqa: BLE001 - the second opinion is optional
@@ -44,6 +56,12 @@ def _second_opinion(prop: str, tier: str, mod, ctx: Ctx) -> None:
     def b_ok(o) -> bool:
         return o.ok or any(_matches(e, prop, o) for e in known)
 
+    if os.environ.get("VERIF_DEBUG_VIEWS"):
+        for o in ctx_b.obligations:
+            if not b_ok(o):
+                print(f"  [inlined view] FAIL [{o.rule}] {o.construct}: {o.detail[:200]}")
+        for e in ctx_b.analysis_errors:
+            print(f"  [inlined view] ANALYSIS-ERROR {e}")
     cleared = 0
     for o in failing:
         same = by_key.get(o.key())
